@@ -4,9 +4,10 @@ from props.polycases import P, W, GRID, coef, poly, grp
 ID = "C09"
 GEN_TAGS = ["PolyGen"]
 PROOF_TARGETS = ["proofs/PolyDivProofs.vo", "proofs/XFieldPoly.vo", "proofs/XFieldCleanDivide.vo",
-                 "proofs/PolyDeepenDiv.vo", "proofs/PolyDeepenNewton.vo", "proofs/PolyDeepenXfe.vo"]
+                 "proofs/PolyDeepenDiv.vo", "proofs/PolyDeepenNewton.vo", "proofs/PolyDeepenXfe.vo",
+                 "proofs/PolyNewtonGen.vo", "proofs/PolyGenExamples.vo"]
 PROPS_FILE = "props/C09.v"
-EXTRA_PROPS_FILES = ["props/C09b.v"]
+EXTRA_PROPS_FILES = ["props/C09b.v", "props/C09c.v"]
 EXTRACT = "extract/ExtractC09.vo"
 ORACLE = ("gen_c09", "c09.ml")
 HARNESS = "c09"
@@ -72,6 +73,15 @@ ASSUMPTIONS = [
     "2^32 elements, which ntt rejects: C09_fpsi_newton_panics_at_full_domain_2_32 exhibits one (1 + X^1023 at precision "
     "2^20 + 1, proved without executing it); the proved statement has the bound precision * max(1, degree) <= 2^29. "
     "BFieldElement instances of reduce / fast_reduce / structured_multiple_of_degree / reduce_by_ntt_friendly_modulus: C09_bfe_*; Newton over XFieldElement: C09_xfe_fpsi_newton",
+    "UPDATE (general theorem, props/C09c.v, proofs/PolyNewtonGen.v): formal_power_series_inverse_newton is correct on EVERY input it "
+    "accepts, and the accepted inputs are characterised exactly - C09_fpsi_newton_general (whenever the model returns g, for any "
+    "well-formed f and any precision >= 0, f * g = 1 mod X^precision; no size hypothesis), C09_fpsi_newton_domain (it returns iff the "
+    "constant coefficient is invertible and degree = 0 or num_rounds <= switch_point or full_domain_length <= 2^lmax), "
+    "C09_fpsi_newton_panics_iff; instances C09_bfe_* / C09_xfe_* with lmax = 31 and nothing assumed (ntt rejects >= 2^32 elements: "
+    "ntt_b_rejects). C09_fpsi_newton_partial of props/C09.v is thereby superseded; the only assumption left is the one stated "
+    "above: usize arithmetic on precisions does not overflow (the model computes 1 << (num_rounds + 1) over Z; on every accepted input "
+    "2^(num_rounds+1) * degree <= 2^31 or the expression is not evaluated, so nothing can overflow there). An executed NTT-arm instance "
+    "(VM) lives in proofs/PolyGenExamples.v, a proof target that the props files do not import (coqchk has no VM)",
 ]
 RULE = ("(dividend degree, divisor degree) around (4d, d) for d in {1,2,127,128,129,255,256,257,511,512,513} (+1023..1025 "
         "thorough) for divide / reduce / fast_reduce / rem / div, both fields; divisors with root 0 and double root 0; divisors "
@@ -370,4 +380,32 @@ def cases(tier, rng):
     for _ in range(nrand // 5):
         d, dq = rng.choice((1, 2, 7, 30, 90)), rng.choice((0, 1, 4, 50))
         clean("random", rpoly(rng, d), rpoly(rng, dq))
+    # operands that share memory: dividend and divisor are two borrowed polynomials over prefixes of ONE buffer (same start
+    # address, different lengths), or the very same object
+    for f in ("b", "x"):
+        for deg in (1, 3, 8, 40):
+            a = poly(rng, f, deg)
+            n = deg + 1
+            for (i, j) in sorted({(n, 1), (n, 2), (n, n // 2), (n, deg), (deg, n), (1, n), (0, n), (n, n), (2, 2), (n // 2, n)}):
+                if i > n or j > n or j == 0:
+                    continue
+                if not any(a[j - 1]):
+                    continue
+                for sub in ("divide", "naive_divide", "div", "rem", "reduce", "fast_reduce", "xgcd"):
+                    add("alias", "alias %s %s %d %d | %s" % (f, sub, i, j, grp(a, 0, True)))
+        for deg in (0, 1, 5, 40):
+            a = poly(rng, f, deg)
+            for sub in ("divide", "naive_divide", "reduce", "fast_reduce"):
+                add("same-object", "same %s %s | %s" % (f, sub, grp(a, rng.choice((0, 2)))))
+    # a CLEAN division on aliased prefixes: dividend = d * (1 + x^j r) starts with the j coefficients of d
+    for (dj, dr) in ((1, 0), (2, 3), (5, 5), (8, 1), (30, 40), (600, 20)):
+        if dj > 100 and not big:
+            continue
+        d = rpoly(rng, dj - 1)
+        if not d or d[0] == 0:
+            d = [1] + d[1:] if d else [1]
+        q = [1] + [0] * (dj - 1) + rpoly(rng, dr)
+        a = pmul(d, q)
+        if a[:dj] == d:
+            add("alias", "alias_clean_divide b %d %d | %s" % (len(a), dj, grp(bl(a), 0, True)))
     return out
